@@ -265,6 +265,12 @@ def laws(ctx: Ctx, a, b, c, shapes):
             if al[0] == "input-rejected":
                 continue
             same = (al[0] == ar[0]) and (al[0] != "ok" or al == ar)
+            if name != "comp_assoc" and (al[0] != "ok" or ar[0] != "ok"):
+                # the property speaks about conjunctions "whenever construction and application succeed": regrouping
+                # changes which intermediate dictionary class is checked (e.g. two Jacobians of different first
+                # dimension united directly vs through a plain TensorDict), so one grouping may be rejected
+                ctx.count("conj_law_one_side_rejected", al[0] != ar[0])
+                continue
             if not same:
                 ctx.violation(f"{name}: applications differ: {al} vs {ar} for {sx(term_sx(l))}",
                               {"kind": "law", "law": name, "left": sx(term_sx(l)),
